@@ -300,7 +300,7 @@ Definition mon_C04 (c : cfg) (tr : trace) : list failure :=
    end).
 
 (* ---------- C07 ---------- *)
-Definition mon_C07_rpc (c : cfg) (tr : trace) (r : N) : list failure :=
+Definition mon_C07_rpc (c : cfg) (tr : trace) (r : N) (sh : shape) : list failure :=
   match rets_of (Cx r) OCancel tr with
   | [] => []
   | (ac, _, _, _, _, _, _, _, _) :: _ =>
@@ -311,6 +311,14 @@ Definition mon_C07_rpc (c : cfg) (tr : trace) (r : N) : list failure :=
        | Some (a, REof, _, _, _, _, _, _, _), Some ROk => []
        | Some (a, REof, _, _, _, _, _, _, _), _ => fl 701 a (zr r) 0
        | _, _ => [] end) ++
+      (* on a non-streaming response a successful receive is the final success *)
+      (if server_streams sh then [] else
+         match filter (fun x => match x with (_, ROk, _, _, _, _, _, _, _) => true | _ => false end) (rets_of (Cr r) ORecv tr),
+               handler_status r tr with
+         | [], _ => []
+         | _ :: _, Some ROk => []
+         | (a, _, _, _, _, _, _, _, _) :: _, _ => fl 701 a (zr r) 1
+         end) ++
       (* once the notice has been delivered the handler's operations return *)
       (* (with flow control: in revision zero a delivered frame may wait behind a full slot) *)
       (match (if expect_fc c then stream_of r tr else None) with
@@ -324,7 +332,7 @@ Definition mon_C07_rpc (c : cfg) (tr : trace) (r : N) : list failure :=
        end)
   end.
 Definition mon_C07 (c : cfg) (tr : trace) : list failure :=
-  flat_map (fun x => match x with (r, _, _, _, _, _, _, _) => mon_C07_rpc c tr r end) (rpcs_of tr).
+  flat_map (fun x => match x with (r, _, sh, _, _, _, _, _) => mon_C07_rpc c tr r sh end) (rpcs_of tr).
 
 (* ---------- C08 (application side) ---------- *)
 Definition mon_C08 (tr : trace) : list failure :=
